@@ -264,9 +264,25 @@ func (d *discInfoSector) encode(enc *iso9660encoder) {
 	enc.appendBytes(d.Hash[:])
 }
 
+// Length of directory record is stored in one byte: 33 bytes of fixed fields + identifier
+// (+ padding byte for even-sized identifier) must not exceed 255.
+const (
+	maxIdentifierChars       = 221 // one byte per character
+	maxJolietIdentifierChars = 110 // two bytes per character
+)
+
 func makeIdentifier(name string, joliet bool) stringD1 {
 	if !joliet {
 		name = strings.ToUpper(name)
+	}
+
+	limit := maxIdentifierChars
+	if joliet {
+		limit = maxJolietIdentifierChars
+	}
+
+	if runes := []rune(name); len(runes) > limit {
+		name = string(runes[:limit])
 	}
 
 	return mangleStrD1(name, joliet)
